@@ -351,6 +351,17 @@ Fixpoint sub_assign_digests (lim : Z) (nums : list Z) (fs : list folder) (define
       end
   end.
 
+Fixpoint default_digests (nums : list Z) (fs : list folder) : list bool * list Z :=
+  match nums, fs with
+  | n :: nr, f :: fr =>
+      let '(d, g) := default_digests nr fr in
+      match (if (n =? 1) && f_digestdefined f then f_crc f else None) with
+      | Some c => (true :: d, c :: g)
+      | None => (repeat false (Z.to_nat n) ++ d, repeat 0 (Z.to_nat n) ++ g)
+      end
+  | _, _ => ([], [])
+  end.
+
 (* SubstreamsInfo._read (after the SUBSTREAMS_INFO id) *)
 Definition parse_substreams (lim : Z) (fs : list folder) : reader substreams := fun bs =>
   let nf := zlen fs in
@@ -382,7 +393,9 @@ Definition parse_substreams (lim : Z) (fs : list folder) : reader substreams := 
   | Some 0 =>
       if (length dd =? 0)%nat then
         if lim <? ntotal then Err EFuel else
-        Ok (mkSub nums sizes (repeat false (Z.to_nat ntotal)) (repeat 0 (Z.to_nat ntotal)), bs)
+        (* no CRC record: a folder with one sub-stream passes its own CRC on, everything else is undefined *)
+        let '(dd', dg') := default_digests nums fs in
+        Ok (mkSub nums sizes dd' dg', bs)
       else Ok (mkSub nums sizes dd dg, bs)
   | _ => Err EBad7z
   end.
